@@ -93,8 +93,15 @@ def observed_nodes(graph, normalise_defaults=True):
     return out
 
 
-def observed_edges(graph):
-    return {(min(a, b), max(a, b)): d.get("bond_type") for a, b, d in graph.edges(data=True)}
+def observed_edges(graph, by_position=False):
+    """{(i, j): bond_type}; with by_position the endpoints are positions in node iteration order (= file order), not labels."""
+    pos = {v: k for k, v in enumerate(graph.nodes)} if by_position else None
+    out = {}
+    for a, b, d in graph.edges(data=True):
+        if pos is not None:
+            a, b = pos[a], pos[b]
+        out[(min(a, b), max(a, b))] = d.get("bond_type")
+    return out
 
 
 # --------------------------------------------------------------------------------------------
